@@ -424,9 +424,14 @@ func (c11) Eval(t *testing.T, c *Case, dec func(int) *Decider) *Outcome {
 		realBrokenPipe = brokenPipe
 		// in 4% of the runs the signal arrives while a statement runs that does not look at its context
 		// for several seconds (an external command): csvq ends when that statement ends - and cleans up
-		realStallSignal = ""
+		realStallSignal, realStallSecond = "", ""
 		if rs := Sub(c.Seed, "realstall"); !brokenPipe && preload == 0 && rs.Bool(0.04) {
 			realStallSignal, realStallAfter = rs.PickS("TERM", "INT", "QUIT"), rs.Intn(64)
+			realStallSecond = ""
+			if rs.Bool(0.5) {
+				realStallSecond = rs.PickS("TERM", "INT", "QUIT")
+				o.Stats.probe("real-second-signal-during-external-command")
+			}
 			spec = "no.such.point#1:INT"
 			o.Stats.probe("real-signal-during-external-command")
 		}
@@ -598,6 +603,7 @@ var realBrokenPipe bool
 // realStallSignal / realStallAfter: see realSignalRun (set per evaluation, like realBrokenPipe)
 var (
 	realStallSignal string
+	realStallSecond string
 	realStallAfter  int
 )
 
@@ -632,7 +638,13 @@ func realSignalRun(bin string, sc *Scenario, p int, spec string, preload int) (D
 		// a statement that does not notice the cancellation for a while: an external command that sends the
 		// signal to csvq and then keeps running for 4 s, placed after the k-th statement of the program
 		script := filepath.Join(dir, "stall.sh")
-		if err := os.WriteFile(script, []byte("kill -"+realStallSignal+" $PPID\nsleep 4\n"), 0o755); err != nil {
+		body := "kill -" + realStallSignal + " $PPID\nsleep 4\n"
+		if realStallSecond != "" {
+			// ... and a second signal while csvq is still waiting for the statement to end (Ctrl-C pressed
+			// twice, a supervisor that sends SIGINT and then SIGTERM)
+			body = "kill -" + realStallSignal + " $PPID\nsleep 1\nkill -" + realStallSecond + " $PPID\nsleep 2\n"
+		}
+		if err := os.WriteFile(script, []byte(body), 0o755); err != nil {
 			return nil, 0, "", err
 		}
 		lines := strings.Split(program, "\n")
